@@ -6,7 +6,7 @@ check against that worktree (VERIF_REPO), store everything under /verif/seeded/<
 import json, os, shutil, subprocess, sys, time
 ENV = dict(os.environ, GOFLAGS="-mod=mod", GOPROXY="off")
 def sh(cmd, cwd=None, env=ENV, timeout=3600):
-    p = subprocess.run(cmd, shell=True, cwd=cwd, env=env, stdout=subprocess.PIPE, stderr=subprocess.STDOUT, text=True, timeout=timeout)
+    p = subprocess.run(cmd, shell=True, cwd=cwd, env=env, stdout=subprocess.PIPE, stderr=subprocess.STDOUT, text=True, errors="replace", timeout=timeout)
     return p.returncode, p.stdout
 def one(pid, src):
     name = "%s-%s" % (pid, os.path.basename(src.rstrip("/")))
